@@ -204,6 +204,19 @@ mod verif_body_c02 {
             });
         };
     }
+    macro_rules! c02_chunked_concrete {
+        ($name:ident, $shape:expr, $fault:expr, $resume:expr, $seg:expr, $cap:expr, $rd:expr, $from:expr, $to:expr) => {
+            verif_harness!($name, 40, {
+                unsafe {
+                    crate::verif::CONCRETE_PAYLOAD = true;
+                }
+                let shape: &[Ch] = &$shape;
+                let case = Case::chunked(shape, 0, false);
+                assert!($from < case.frame_len, "harness shape error: empty cut range");
+                c02_cuts(Framing::Chunked, &case, $fault, $resume, $seg, $cap, $rd, $from, $to);
+            });
+        };
+    }
     macro_rules! c02_raw {
         ($name:ident, $framing:expr, $n:expr, $fault:expr, $resume:expr, $seg:expr, $cap:expr, $rd:expr, $from:expr, $to:expr) => {
             verif_harness!($name, 40, {
